@@ -159,10 +159,16 @@ def run_case(case: dict) -> list:
             except Exception:  # noqa: BLE001
                 covered = []
             symlinks = sorted(x.relative_to(root).as_posix() for x in root.rglob("*") if x.is_symlink())
+            (d / "sentinel" / "started-here").mkdir(exist_ok=True)
             s0, o0 = snap(root), snap(d / "sentinel")
             args, cwd = command_line(root, c)
-            if case["tid"] % 2:            # every path is given absolutely: the directory the tool is started in must not matter
-                cwd = d
+            # every path is given absolutely: the directory the tool is started in must not matter - an unrelated
+            # directory (watched: part of the sentinel), or a subdirectory of the project
+            if case["tid"] % 3 == 1:
+                cwd = d / "sentinel" / "started-here"
+                cwd.mkdir(exist_ok=True)
+            elif case["tid"] % 3 == 2 and (root / "src").is_dir():
+                cwd = root / "src"
             r = core.run_reuse(args, cwd=cwd)
             s1, o1 = snap(root), snap(d / "sentinel")
             changed, created, removed = diff(s0, s1)
